@@ -1,6 +1,6 @@
 """C11 — plan creates the whole described graph or nothing."""
 import json
-from .. import common, framework, fndiff, cmdrun, gen, oracles
+from .. import common, framework, fndiff, cmdrun, gen, oracles, explore2
 from ..histories import run_history, replay_trace
 
 WEIGHTS = {"new_task": 12, "new_epic": 4, "set": 12, "sequence": 6, "plan": 50, "prune_yes": 4, "compact": 3, "claim_oldest": 3, "malformed": 6}
@@ -74,7 +74,14 @@ def run(ctx):
     r = gen.Rng(ctx.seed * 1000003 + 11)
     for h in range(25 if ctx.quick else 400):
         run_history(ctx, r.fork(), 30, WEIGHTS, oracle)
-    ctx.cov["rule"] = ("seeded plan documents (DAGs and non-DAGs up to 6 tasks, duplicate/self/dangling/blank after, blank or missing fields, unknown keys, two values) "
+    # plan rewrites the whole log: it must build on the log as it is *inside* its lock section.  Every schedule of plan ∥ another writer on the
+    # real binary (plan parked before the lock, inside, after), judged by serial equivalence: nothing the other writer recorded may be lost
+    framework.check_facts(ctx, ctx.facts, ["lock_sites", "writer_calls", "with_lock", "sections"])
+    for i in range(5 if ctx.quick else 100):
+        kb = [("new", "new+state"), ("set", "set+state", "reopen"), ("claim_oldest", "claim_id"), ("sequence", "new_in_epic"), ("plan", "prune", "compact")][i % 5]
+        explore2.explore(ctx, "C11", r.fork(), kindsA=("plan",), kindsB=kb, max_points=(7 if ctx.quick else 40), state_cmds=6)
+    ctx.cov["rule"] = ("two-process schedules plan ∥ writer (plan parked after each of its store system calls; the other runs to completion or holds the lock): serial equivalence; "
+                       "seeded plan documents (DAGs and non-DAGs up to 6 tasks, duplicate/self/dangling/blank after, blank or missing fields, unknown keys, two values) "
                        "applied to pre-existing stores; oracle: independent validity spec ⇔ accepted; reply ⊆ next read; one epic + n todo tasks; edges; old items untouched")
 
 
